@@ -273,6 +273,83 @@ def pass_check(db, fn, edges, through_blocks, exits):
     return (not bad), nfeas, bad
 
 
+POP = re.compile(r"^alloc::vec::Vec::pop$|^alloc::collections::vec_deque::VecDeque::(pop_front|pop_back)$|"
+                 r"^alloc::collections::btree::set::BTreeSet::(pop_first|pop_last)$|^alloc::collections::binary_heap::BinaryHeap::pop$")
+PUSH = re.compile(r"^alloc::vec::Vec::(push|extend|append|extend_from_slice)$|^alloc::collections::vec_deque::VecDeque::(push_back|push_front|extend)$|"
+                  r"^alloc::collections::btree::set::BTreeSet::insert$|^alloc::collections::binary_heap::BinaryHeap::push$|Extend<.*>>::extend$")
+
+
+def worklists(db, fn):
+    """Worklist loops of fn: a loop whose header pops from a local container that is pushed to inside the loop.
+    -> [(header block, container local, body blocks, bad exit edges)] where a bad exit edge leaves the loop other than
+    through the `None` outcome of the pop and does not lead only to error returns / panics."""
+    from . import flow
+    g = graph(fn)
+    out = []
+    cr = g.can_return()
+    for hb, t, c in db.calls(fn):
+        if not POP.search(c.get("n") or "") or not t[2]:
+            continue
+        r = flow.root_place(fn, t[2][0])
+        if r is None or r[1]:
+            continue
+        w = r[0]
+        # the switch on the pop result
+        sw = t[4]
+        some = none = None
+        for bb2, tb, lab, facts in cfg.all_edge_facts(db, fn):
+            for f in facts:
+                if f[0] == "variant" and f[4] and f[3] in ("Some", "None"):
+                    e = cfg.base_value(f[1])
+                    if e[0] == "call" and len(e) > 3 and e[3] == hb:
+                        if f[3] == "Some":
+                            some = (bb2, tb)
+                        else:
+                            none = (bb2, tb)
+        if some is None:
+            continue
+        fwd = g.reach([some[1]], avoid_blocks=[hb])
+        body = set(b for b in fwd if hb in g.reach([b]))
+        body.add(hb)
+        if sw is not None:
+            body |= set(b for b in g.reach([sw], avoid_blocks=[some[1]] + ([none[1]] if none else [])) if b in g.reach([hb]) and some[0] in g.reach([b]))
+        # pushed to inside the loop?
+        pushes = []
+        for bb2 in body:
+            t2 = fn["blocks"][bb2]["t"]
+            if t2[0] == "call" and PUSH.search(t2[1].get("n") or "") and t2[2]:
+                r2 = flow.root_place(fn, t2[2][0])
+                if r2 is not None and r2[0] == w and not r2[1]:
+                    pushes.append(bb2)
+        if not pushes:
+            continue
+        bad = []
+        errs = set(bb for bb, j, k, ops in agg_sites(fn, r"^core::result::Result$", "Err"))
+        for b in body:
+            for tb, lab in g.succ[b]:
+                if tb in body or tb not in cr:
+                    continue
+                if none and (b, tb) == none:
+                    continue
+                # exits that only return an error are not "dropped work": the whole result is discarded
+                reach = g.reach([tb])
+                rets = [x for x in ret_blocks(fn) if x in reach]
+                only_err = bool(rets) and all(any(e_ in g.reach([tb]) and x in g.reach([e_]) for e_ in errs) and
+                                              not _ok_between(fn, g, tb, x) for x in rets)
+                if only_err:
+                    continue
+                bad.append((b, tb))
+        out.append((hb, w, body, bad))
+    return out
+
+
+def _ok_between(fn, g, a, ret):
+    """Is there an `Ok(..)` assignment to the return place on some path a -> ret?"""
+    oks = set(bb for bb, j, k, ops in agg_sites(fn, r"^core::result::Result$", "Ok") if fn["blocks"][bb]["s"][j][1][0] == 0)
+    ra = g.reach([a])
+    return any(o in ra and ret in g.reach([o]) for o in oks)
+
+
 def line_of(fn, bb, idx=None):
     b = fn["blocks"][bb]
     if idx is not None and idx != "term":
